@@ -86,7 +86,13 @@ func FailoverConfig(options ...Option) (config Config) {
 	config.OnFailure = func(ctx context.Context) {
 		clientContext := core.GetClientContext(ctx)
 		urls := clientContext.Client().URLs
-		clientContext.URL = urls[getIndex(&index, int64(len(urls)))]
+		n := int64(len(urls))
+		url := urls[getIndex(&index, n)]
+		// the index is shared by all calls: skip the server that has just failed
+		for i := int64(1); i < n && url == clientContext.URL; i++ {
+			url = urls[getIndex(&index, n)]
+		}
+		clientContext.URL = url
 	}
 	config.OnRetry = func(ctx context.Context) time.Duration {
 		clientContext := core.GetClientContext(ctx)
